@@ -84,6 +84,11 @@ class C13Death(Prop):
                 for ps in PSTATES:
                     yield {'tasks': [[1, st, bind], [2, 'AGENT_EXECUTING', 2]],
                            'ops': [['cb', [[1, ps]], 'list']]}
+        # scale: a pilot that owns more tasks than any bulk size somebody may come to think of (1024, 2048): every
+        # one of them is failed, the bystanders' are not
+        for nbig in ((1025, 2600) if tier == 'quick' else (1023, 1024, 1025, 2047, 2049, 2600, 3071, 4099)):
+            yield {'tasks': [[u, 'AGENT_EXECUTING' if u % 7 else 'DONE', 1 if u % 50 else 2] for u in range(1, nbig + 1)],
+                   'ops': [['cb', [[1, rng.choice(FINAL)]], 'list']]}
         n = 500 if tier == 'quick' else 8000
         for _ in range(n):
             npil = rng.randint(1, 3)
@@ -373,7 +378,8 @@ class C13(Sides, C13Death):
     # the callback of the task manager only runs when the pilot OBJECT becomes final: notification ->
     # PilotManager._update_pilot -> Pilot._update -> pilot callbacks (the C14 check: sequences of notifications
     # and two notifications handled by two threads at once)
-    side_specs = [Spec('pilot', 'c14', ['progression', 'final_state_consistent', 'no_unexpected_exception'])]
+    side_specs = [Spec('pilot', 'c14', ['progression', 'final_state_consistent', 'no_unexpected_exception'],
+                       only=lambda c: not (isinstance(c, dict) and c.get('kind') == 'launch'))]
     clauses = C13Death.clauses + side_specs[0].clause_names()
     extra_targets = C13Death.extra_targets + ['States/Oracle.vo', 'AgentCause/Model.vo']
     model_targets = C13Death.model_targets + ['States/Oracle.vo', 'AgentCause/Model.vo']
